@@ -41,6 +41,8 @@ type Complex struct {
 type SelCase struct {
 	Text string    `json:"text"`
 	List []Complex `json:"ast"`
+	// CIC: number of comments the printer put between simple selectors of one compound
+	CIC int `json:"cic,omitempty"`
 }
 
 // ---------------------------------------------------------------------------------------------
@@ -216,6 +218,7 @@ type printer struct {
 	// before parsing, so the compound is unchanged; css/selector treats a comment as white space
 	// (known divergence, report-only probes only).
 	commentInCompound bool
+	insertedComments  int
 }
 
 func (p *printer) chance(pct int) bool { return p.r != nil && p.r.Intn(100) < pct }
@@ -527,6 +530,7 @@ func (p *printer) compound(c *Compound) {
 	for i := range c.S {
 		if i > 0 && p.commentInCompound && p.chance(60) {
 			p.b.WriteString("/**/")
+			p.insertedComments++
 		}
 		p.simple(&c.S[i])
 	}
@@ -568,9 +572,13 @@ func (p *printer) list(l []Complex) {
 }
 
 // printList prints a selector list; r == nil gives the canonical spelling.
-func printList(r *rand.Rand, l []Complex) string { return printListOpt(r, l, false) }
+func printList(r *rand.Rand, l []Complex) string {
+	s, _ := printListOpt(r, l, false)
+	return s
+}
 
-func printListOpt(r *rand.Rand, l []Complex, commentInCompound bool) string {
+// printListOpt also returns the number of comments written between simple selectors of a compound.
+func printListOpt(r *rand.Rand, l []Complex, commentInCompound bool) (string, int) {
 	p := &printer{r: r, commentInCompound: commentInCompound}
 	if r != nil && r.Intn(8) == 0 {
 		p.b.WriteString(p.pick(" ", "\n", "/**/"))
@@ -579,5 +587,5 @@ func printListOpt(r *rand.Rand, l []Complex, commentInCompound bool) string {
 	if r != nil && r.Intn(8) == 0 {
 		p.b.WriteString(p.pick(" ", "\n", " /**/"))
 	}
-	return p.b.String()
+	return p.b.String(), p.insertedComments
 }
